@@ -760,3 +760,40 @@ func TestVerifC01Measure(t *testing.T) {
 			"dense batch (>256 distinct values per block: plain encoding)": 0.1},
 	})
 }
+
+// ---------------------------------------------------------------------------------------------
+// C09 — ordered results (measure, L1): the engine's merge of block cursors over several parts
+// returns each series chunk in the requested timestamp order and series in the requested order.
+// ---------------------------------------------------------------------------------------------
+
+func TestVerifC09Measure(t *testing.T) {
+	p := genProfile{maxSeries: 5, maxTimes: 40, maxBatches: 6, maxRows: 40, versions: []int64{1, 2, 3}, maintenance: true}
+	verifkit.Run(t, verifkit.Spec[mCase]{
+		Property: "C09", Unit: "measure_l1",
+		Rule: "measure histories (<=5 series x <=40 timestamps, 1..6 batches, flush/merge/reopen in between) queried with series subsets in arbitrary " +
+			"requested order, sub-ranges and the three orderings (by requested series order then time; by time ascending; by time descending) over rows " +
+			"spread across several parts; oracle: result == model and the documented order holds (strictly increasing/decreasing timestamps per series chunk, " +
+			"series in requested order); non-trivial = a query whose rows come from >= 2 parts",
+		Gen: func(t *rapid.T, _ *verifkit.KnownSet) mCase {
+			c := genMeasureCase(t, p)
+			for k := 0; k < 4; k++ {
+				c.Ops = append(c.Ops, mOp{Kind: "query", Query: genQuery(t, p, c.Schemas)})
+			}
+			return c
+		},
+		Check: func(x *verifkit.Ctx, c mCase) error {
+			st, err := runMeasureHistory(x, c)
+			if err != nil {
+				return err
+			}
+			x.LabelIf(st.keysInTwoParts, "rows of a key in >=2 parts")
+			x.LabelIf(st.writes >= 2, "rows from >=2 parts")
+			x.LabelIf(st.merges > 0, "merged")
+			if st.writes >= 2 {
+				x.NonTrivial()
+			}
+			return nil
+		},
+		SampleOf: sampleOfCase,
+	})
+}
